@@ -472,7 +472,7 @@ def run(ctx):
     r4 = rep.rule('C08.4-rcpthosts', 'R-TABLE', 'rcpthosts(): domain lower-cased before both lookups; candidates are the whole domain and every dot suffix, same predicate for the list and the cdb; no @ or no rcpthosts file -> allowed (documented open default); cdb errors propagate')
     rh = db.fn('rcpthosts.c', 'rcpthosts')
     import itertools
-    doms = [''] + [''.join(t) for n in (1, 2, 3, 4) for t in itertools.product('X.', repeat=n)]
+    doms = [''] + [''.join(t) for n in range(1, ctx.deep(4, 7) + 1) for t in itertools.product('X.', repeat=n)]
     addrs = [('u@' + d, d) for d in doms] + [('a@b@X.X', 'X.X'), ('noat', None), ('', None)]
     ncell = 0
     for addr_, dom in addrs:
